@@ -56,7 +56,11 @@ mod absolute_to_relative_time {
         D: Deserializer<'de>,
     {
         let deadline = Duration::deserialize(deserializer)?;
-        Ok(Instant::now() + deadline)
+        let now = Instant::now();
+        // Saturate instead of panicking on a peer-chosen duration that overflows Instant.
+        Ok(now
+            .checked_add(deadline)
+            .unwrap_or_else(|| now + crate::util::MAX_TIMEOUT))
     }
 
     #[cfg(test)]
